@@ -31,12 +31,46 @@ def rule_cow(ctx, rep):
                 else:
                     rep.ok("R-COW", key + "/path-set", cfg=tag)
                 reads_out = any(e["kind"] == "MAKE" and str(e["detail"].get("via", "")).startswith("core::ptr::read") for p in prs for e in p.events) or any(e["kind"] == "CALL" and _reads_and_parks(F, A, e["detail"].get("callee")) for p in prs for e in p.events)
-                if h == "Arc" or not reads_out:
+                tkeys = {x["key"] for (h2, n2) in targets for x in F.method(h2, n2)} - {key}
+                dk = _delegates_to(F, A, b, prs, tkeys)
+                if dk is not None:
+                    # the whole copy-on-write is another function of this family applied to the same handle (judged there); the
+                    # borrow handed out comes after it
+                    rep.ok("R-COW", key + "/order", "delegates to " + dk, cfg=tag)
+                    rep.ok("R-COW", key + "/gate", "delegates to " + dk, cfg=tag)
+                elif h == "Arc" or not reads_out:
                     # (an OffsetArc copy-on-write that never moves the handle out of its place has Arc::make_mut's own shape)
                     _arc_cow_order(F, A, b, prs, rep, tag, need_ref=(h == "Arc"))  # the value-pointer borrow of an OffsetArc is judged by C03 R-GATE
                 else:
                     _offset_cow(F, A, b, prs, rep, tag)
     rep.floor("R-COW", 9, "3 functions x (path set, order, gate/write-back)")
+
+
+def _delegates_to(F, A, b, prs, tkeys):
+    """Every returning path calls one and the same other copy-on-write function on the handle parameter itself, before any mutable
+    borrow of the payload, and neither clones, allocates nor releases anything on its own."""
+    from . import c03
+    from ..facts import operand_place
+
+    B = cfg.Body(b)
+    found = set()
+    for p in prs:
+        i_call = idx_of(p.events, lambda e: e["kind"] == "CALL" and e["detail"].get("outcome") is None and e["detail"].get("callee") in tkeys)
+        if i_call is None:
+            return None
+        e = p.events[i_call]
+        t = b["blocks"][e["bb"]]["term"]
+        pl = operand_place(t["args"][0]) if t["k"] == "call" and t["args"] else None
+        if pl is None or 1 not in c03.root_args(B, pl["l"]):
+            return None
+        i_ref = _mut_ref_index(p.events[:i_call], A)
+        if i_ref is not None:
+            return None
+        for j, x in enumerate(p.events):
+            if j != i_call and (x["kind"] == "UCLONE" or vget(x["vec"], "uclone") or vget(x["vec"], "alloc") or c04.released(x["vec"])):
+                return None
+        found.add(e["detail"]["callee"])
+    return next(iter(found)) if len(found) == 1 else None
 
 
 def _fwd_gate_at(F, b, e):
